@@ -65,8 +65,53 @@ func c18NamedD() c18Named {
 		func(v any) string { r := v.(*request); return fmt.Sprintf("%v %d", r.Flag, r.Count) }}
 }
 
+// Embedded structs whose field names collide - with each other (E) or with a field of the enclosing struct (F). Legal Go (a
+// selector would be ambiguous, nobody writes one) and a legal layout: every field has its own tag and its own offset.
+func c18NamedE() c18Named {
+	type Doors struct {
+		Door1 uint8 `uhppote:"offset:28"`
+		Door2 uint8 `uhppote:"offset:29"`
+		Door3 uint8 `uhppote:"offset:30"`
+		Door4 uint8 `uhppote:"offset:31"`
+	}
+	type Buttons struct {
+		Door1 bool  `uhppote:"offset:32"`
+		Door2 bool  `uhppote:"offset:33"`
+		Door3 uint8 `uhppote:"offset:34"`
+		Door4 uint8 `uhppote:"offset:35"`
+	}
+	type request struct {
+		MsgType      types.MsgType `uhppote:"value:0x20"`
+		SerialNumber uint32        `uhppote:"offset:4"`
+		Doors
+		Buttons
+	}
+	return c18Named{"E request{0x20 u32@4 Doors{Door1..4 u8@28..31} Buttons{Door1..2 bool@32..33 Door3..4 u8@34..35}}",
+		request{SerialNumber: 0x01020304, Doors: Doors{11, 12, 13, 14}, Buttons: Buttons{true, true, 23, 24}}, func() any { return &request{} },
+		map[int]byte{0: 0x17, 1: 0x20, 4: 4, 5: 3, 6: 2, 7: 1, 28: 11, 29: 12, 30: 13, 31: 14, 32: 1, 33: 1, 34: 23, 35: 24}, 1,
+		func(v any) string {
+			r := v.(*request)
+			return fmt.Sprintf("%d %v %v", r.SerialNumber, r.Doors, r.Buttons)
+		}}
+}
+
+func c18NamedF() c18Named {
+	type Header struct {
+		Index uint32 `uhppote:"offset:8"`
+		Door  uint8  `uhppote:"offset:12"`
+	}
+	type request struct {
+		MsgType types.MsgType `uhppote:"value:0x5c"`
+		Header
+		Index uint32 `uhppote:"offset:20"`
+	}
+	return c18Named{"F request{0x5c Header{Index u32@8 Door u8@12} Index u32@20}", request{Header: Header{Index: 0x0a0b0c0d, Door: 2}, Index: 0x01020304}, func() any { return &request{} },
+		map[int]byte{0: 0x17, 1: 0x5c, 8: 0x0d, 9: 0x0c, 10: 0x0b, 11: 0x0a, 12: 2, 20: 4, 21: 3, 22: 2, 23: 1}, 1,
+		func(v any) string { r := v.(*request); return fmt.Sprintf("%v %d", r.Header, r.Index) }}
+}
+
 func c18NamedTypes(c *Ctx) {
-	cases := []c18Named{c18NamedA(), c18NamedB(), c18NamedC(), c18NamedD()}
+	cases := []c18Named{c18NamedA(), c18NamedB(), c18NamedC(), c18NamedD(), c18NamedE(), c18NamedF()}
 	// the order of first use differs from batch to batch (whatever is remembered per type is remembered per process)
 	for k := 0; k < c.Batch%len(cases); k++ {
 		cases = append(cases[1:], cases[0])
